@@ -6,7 +6,7 @@ the rows of cells of a `.tsv` file — and of the schema environment of the stri
   participating files      `Bids.load`                 (discovery, pruning by directory name, file-name parsing)
   sidecar of each file     `Bids.mergeImpl`            (inherited chain, `dict.update`)
   issues of each sidecar   `SidecarV.validateClosed`   (C08 with the C01 model inside) on the merged document
-  issues of each file      `Tabular.validateClosedRaw` (assembly C06 ∘ file layer C07 ∘ string validator C01) on the raw
+  issues of each file      `Tabular.validateClosedRawD` (the merged sidecar's definitions join the dictionary; assembly C06 ∘ file layer C07 ∘ string validator C01) on the raw
                                                        cells of the file and the merged sidecar
   order, labels            sidecars first, then files, each in discovery order; every issue carries its file
 
@@ -20,17 +20,6 @@ import HedVerif.Model.ClosedRaw
 import HedVerif.Generated.C16Defaults
 
 namespace HedVerif.Bids
-
-mutual
-/-- the part of a JSON value the assembly looks at (`Assemble.J`): strings and objects, everything else `other` -/
-def toJ : SJson → Assemble.J
-  | .str s => .str s
-  | .obj kvs => .obj (toJs kvs)
-  | _ => .other
-def toJs : List (Str × SJson) → List (Str × Assemble.J)
-  | [] => []
-  | (k, v) :: r => (k, toJ v) :: toJs r
-end
 
 /-- what a file of the dataset holds -/
 inductive Content where
